@@ -29,6 +29,7 @@ class Ctx:
     info = {}           # details filled by harnesses (observed / expected / fingerprint)
     lex = False         # replay only: documents are written as a lexical variant of the same infoset
     bump = False        # replay only: messages with the default message ID carry a much later one
+    mid = None          # messages built with the default message ID carry this text instead ('' = blank tag)
 
     @classmethod
     def reset(cls, replay=False):
@@ -41,6 +42,7 @@ class Ctx:
         cls.info = {}
         cls.lex = False
         cls.bump = False
+        cls.mid = None
 
 
 def hit():
@@ -143,6 +145,8 @@ def envelope(base, msg_id='2', mos_id='m.mos', ncs_id='ncs'):
     lay = Ctx.envelope_layout
     if Ctx.bump and msg_id == '2':
         msg_id = '9002'
+    if Ctx.mid is not None and msg_id == '2':
+        msg_id = Ctx.mid or None
     if Ctx.ncs_id is not None:
         ncs_id = Ctx.ncs_id
     if lay == 'short':        # fewer header children than a roCreate built with the default layout
